@@ -1215,7 +1215,7 @@ void propMinpv(vh::PropLog& log, std::map<std::string, long>& st, vh::Rng& r, in
 }
 
 // P9: RADIAL grids
-void propRadial(vh::PropLog& log, std::map<std::string, long>& st, vh::Rng& r, int maxn, const std::string& tmp, long& fileNo) {
+void propRadial(vh::PropLog& log, std::map<std::string, long>& st, vh::Rng& r, int maxn, const std::string& tmp, long& fileNo, bool& radialReloadReported) {
     Radial q = genRadial(r, maxn);
     bool ok = true; std::string why;
     try {
@@ -1289,10 +1289,22 @@ void propRadial(vh::PropLog& log, std::map<std::string, long>& st, vh::Rng& r, i
             const auto& z1 = g.getZCORN(); const auto& z2 = h.getZCORN();
             for (size_t n = 0; n < c1.size() && ok; ++n) if (!close(c1[n], c2[n], 2e-7, 1e-6 * scaleXY)) { ok = false; why = "radial save/load COORD[" + std::to_string(n) + "] " + num(c1[n]) + " vs " + num(c2[n]); }
             for (size_t n = 0; n < z1.size() && ok; ++n) if (!close(z1[n], z2[n], 2e-7, 1e-30)) { ok = false; why = "radial save/load ZCORN"; }
-            double worst = 0;
-            for (size_t gi = 0; gi < g.getCartesianSize(); ++gi) worst = std::max(worst, std::fabs(h.getCellVolume(gi) / g.getCellVolume(gi) - 1.0));
+            double worst = 0, v0 = 0, v1 = 0;
+            for (size_t gi = 0; gi < g.getCartesianSize(); ++gi) {
+                worst = std::max(worst, std::fabs(h.getCellVolume(gi) / g.getCellVolume(gi) - 1.0));
+                v0 += g.getCellVolume(gi); v1 += h.getCellVolume(gi);
+            }
             if (worst > 1e-3) st["radial.reload_volume_off_by_more_than_1e-3"]++;
             st["radial.reload_worst_rel_volume_error_ppm"] = std::max(st["radial.reload_worst_rel_volume_error_ppm"], (long) (worst * 1e6));
+            // recorded finding (one stable key, reported once per run): the file carries no radial marker / radii,
+            // the reloaded object computes hexahedron volumes (chords instead of arcs)
+            if (ok && worst > 1e-5 && !radialReloadReported) {
+                radialReloadReported = true;
+                auto list = [](const V& v) { std::string t; for (double d : v) t += (t.empty() ? "" : ",") + num(d); return t; };
+                log.fail("grid.radial.reload_geometry", std::string("RADIAL ") + unitKw(q.unit) + " DIMENS " + dims3(q.nx, q.ny, q.nz) + " INRAD " + num(q.inrad) + " DRV " + list(q.drv)
+                         + " DTHETAV " + list(q.dth) + (q.useDz ? " DZ " + list(q.dz) : " DZV " + list(q.dzv)) + " TOPS " + list(q.tops) + (q.circle ? " CIRCLE" : "")
+                         + ": total volume in memory " + num(v0) + ", after save + load " + num(v1) + " (ratio " + num(v1 / v0) + ", worst cell off by " + num(worst * 100) + " %)");
+            }
         }
         st["radial.cells"] += (long) g.getCartesianSize();
     } catch (const std::exception& e) { ok = false; why = "exception"; }
@@ -1908,9 +1920,10 @@ int main(int argc, char** argv) {
         // P8-P12 (third round)
         if (!indexBroken) {
             const int n3 = thorough ? 160 : 40;
+            bool radialReloadReported = false;
             for (int t = 0; t < n3; ++t) {
                 propMinpv(log, st, rng, thorough ? 6 : 5);
-                propRadial(log, st, rng, thorough ? 6 : 4, tmp, fileNo);
+                propRadial(log, st, rng, thorough ? 6 : 4, tmp, fileNo, radialReloadReported);
                 propGridunit(log, st, rng, thorough ? 5 : 4, tmp, fileNo);
                 propMapaxes(log, st, rng, tmp, fileNo);
                 propHardCP(log, st, rng, thorough ? 7 : 5, tmp, fileNo);
